@@ -109,6 +109,50 @@ pub mod stdspecs {
         forall|x: u8, r: bool| #[trigger] call_ensures(p, (&x,), r) ==> r == (x == c)
     }
 
+    // ---- core::str::from_utf8 ---------------------------------------------------------------------------------
+    #[verifier::external_type_specification]
+    #[verifier::external_body]
+    pub struct ExUtf8Error(core::str::Utf8Error);
+    /// UTF-8 well-formedness of a byte string, and the bytes of a `str` (both uninterpreted: nothing is claimed about the encoding itself)
+    pub uninterp spec fn valid_utf8(b: Seq<u8>) -> bool;
+    pub uninterp spec fn str_bytes(s: &str) -> Seq<u8>;
+    pub assume_specification [ core::str::from_utf8 ] (v: &[u8]) -> (r: Result<&str, core::str::Utf8Error>)
+        ensures
+            r is Ok <==> valid_utf8(v@),
+            r matches Ok(s) ==> str_bytes(s) == v@;
+
+    // ---- <[T]>::splitn(n, pred): Split plus a countdown (core::slice::iter::GenericSplitN) --------------------
+    #[verifier::external_type_specification]
+    #[verifier::external_body]
+    #[verifier::accept_recursive_types(T)]
+    #[verifier::accept_recursive_types(P)]
+    pub struct ExSplitN<'a, T: 'a, P: FnMut(&T) -> bool>(core::slice::SplitN<'a, T, P>);
+
+    pub uninterp spec fn splitn_rest<'a, T, P: FnMut(&T) -> bool>(s: &core::slice::SplitN<'a, T, P>) -> Seq<T>;
+    pub uninterp spec fn splitn_done<'a, T, P: FnMut(&T) -> bool>(s: &core::slice::SplitN<'a, T, P>) -> bool;
+    pub uninterp spec fn splitn_pred<'a, T, P: FnMut(&T) -> bool>(s: &core::slice::SplitN<'a, T, P>) -> P;
+    pub uninterp spec fn splitn_count<'a, T, P: FnMut(&T) -> bool>(s: &core::slice::SplitN<'a, T, P>) -> nat;
+
+    pub assume_specification<T, F: FnMut(&T) -> bool> [ <[T]>::splitn ] (s: &[T], n: usize, pred: F) -> (r: core::slice::SplitN<'_, T, F>)
+        ensures splitn_rest(&r) == s@, !splitn_done(&r), splitn_pred(&r) == pred, splitn_count(&r) == n as nat;
+
+    /// count 0: None; count 1: the whole rest; otherwise one Split step
+    pub assume_specification<'a, T, P: FnMut(&T) -> bool> [ <core::slice::SplitN<'a, T, P> as Iterator>::next ] (it: &mut core::slice::SplitN<'a, T, P>) -> (r: Option<&'a [T]>)
+        ensures
+            splitn_pred(final(it)) == splitn_pred(old(it)),
+            splitn_count(final(it)) == (if splitn_count(old(it)) == 0 { 0nat } else { (splitn_count(old(it)) - 1) as nat }),
+            splitn_count(old(it)) == 0 ==> r is None && splitn_done(final(it)) == splitn_done(old(it)) && splitn_rest(final(it)) == splitn_rest(old(it)),
+            splitn_count(old(it)) > 0 && splitn_done(old(it)) ==> r is None && splitn_done(final(it)),
+            splitn_count(old(it)) == 1 && !splitn_done(old(it)) ==> r is Some && r.unwrap()@ == splitn_rest(old(it)) && splitn_done(final(it)),
+            splitn_count(old(it)) > 1 && !splitn_done(old(it)) ==> ({
+                let s = splitn_rest(old(it));
+                &&& r is Some
+                &&& split_step(splitn_pred(old(it)), s, r.unwrap()@.len() as int)
+                &&& r.unwrap()@ == s.subrange(0, r.unwrap()@.len() as int)
+                &&& (r.unwrap()@.len() < s.len() ==> !splitn_done(final(it)) && splitn_rest(final(it)) == s.subrange(r.unwrap()@.len() as int + 1, s.len() as int))
+                &&& (r.unwrap()@.len() == s.len() ==> splitn_done(final(it)))
+            });
+
     /// with such a predicate, one split step cuts at the first occurrence of c
     pub proof fn lemma_split_step_first_of<P: FnMut(&u8) -> bool>(p: P, c: u8, s: Seq<u8>, k: int)
         requires decides_eq(p, c), split_step(p, s, k)
